@@ -351,7 +351,7 @@ pub fn run_case(p: &Program, cfg: &Config, opts: &CaseOpts, rng: &mut Rng) -> Ca
         if opts.attribute {
             let mut dev = MachineCfg::may();
             dev.dev = Deviation { at_ignores_plain_stores: true };
-            if replay_may(p, h, &dev, false).is_ok() {
+            if replay_may(p, h, &dev, false).map(|a| !a.results.is_empty()).unwrap_or(false) {
                 known = Some("K3-rmw-atomicity-vs-racing-store".to_string());
             }
         }
@@ -509,7 +509,7 @@ pub fn run_case(p: &Program, cfg: &Config, opts: &CaseOpts, rng: &mut Rng) -> Ca
                             if opts.attribute {
                                 let mut dev = MachineCfg::may();
                                 dev.dev = Deviation { at_ignores_plain_stores: true };
-                                if replay_may(p, &h, &dev, true).is_ok() {
+                                if replay_may(p, &h, &dev, true).map(|a| !a.results.is_empty()).unwrap_or(false) {
                                     known = Some("K3-rmw-atomicity-vs-racing-store".to_string());
                                 }
                             }
